@@ -477,13 +477,25 @@ func facts(target string, v any) stageFacts {
 		f.note = pi.Frame + ": " + pi.Msg
 		return f
 	}
+	if target == "schema" {
+		// a plugin schema stands alone: a reference nobody can link (foreign namespace) fails the link step
+		for _, s := range scopes {
+			var verr error
+			sc := s.sc
+			if pi := sup.Guard(func() { verr = sc.ValidateReferences() }); pi != nil || verr != nil {
+				f.Link = "fail"
+				f.note = fmt.Sprint("ValidateReferences: ", verr, pi)
+				return f
+			}
+		}
+	}
 	f.Link = "ok"
 	e := exerciseScopes(scopes, baseline())
-	// foreign-namespace references stay unlinked by design: their panics are not a first-use fault of
-	// the description (the consumer applies that namespace)
+	// foreign-namespace references of a stand-alone scope stay unlinked by design: their panics are not
+	// a first-use fault of the description (the embedding side applies that namespace)
 	var real []usePanic
 	for _, p := range e.panics {
-		if strings.Contains(p.Msg, "scope with namespace \"ext\"") {
+		if foreignMsg(p.Msg) {
 			continue
 		}
 		real = append(real, p)
@@ -511,20 +523,48 @@ func mutationClass(c *Case) string {
 }
 
 func unlinkedMsg(msg string) bool { return strings.Contains(msg, "not linked to its object") }
-func foreignMsg(msg string) bool  { return strings.Contains(msg, "scope with namespace \"ext\"") }
+
+var nsRe = regexp.MustCompile(`scope with namespace "([^"]*)"`)
+
+// foreignMsg: an unlinked-reference panic about a namespace other than the scope's own.  Whoever
+// embeds the scope applies that namespace; on a stand-alone scope it is unlinked by contract.
+func foreignMsg(msg string) bool {
+	m := nsRe.FindStringSubmatch(msg)
+	return unlinkedMsg(msg) && m != nil && m[1] != ""
+}
+
+// classify labels an observed panic with the defect class it belongs to (labelling only: the verdict
+// is the panic itself) and normalises the frame where one defect surfaces in many accessors.
+func classify(msg, frame, modelCause string) (kind, normFrame string) {
+	switch {
+	case foreignMsg(msg):
+		return "foreign_ref", "schema.(*RefSchema)"
+	case unlinkedMsg(msg):
+		if modelCause == "dangling_ref" {
+			return "dangling_ref", "schema.(*RefSchema)"
+		}
+		return "unlinked_ref", "schema.(*RefSchema)"
+	case strings.Contains(msg, "root object with ID") && strings.Contains(msg, "not found"):
+		return "root_missing", frame
+	case strings.Contains(msg, "doesn't match its map key"):
+		return "root_mismatch", frame
+	case strings.Contains(msg, "Default value for property"):
+		return "bad_default", frame
+	case strings.Contains(msg, "Referenced object") && strings.Contains(msg, "not found in scope"):
+		return "dangling_ref", frame
+	case strings.Contains(msg, "discriminator field") || strings.Contains(msg, "has conflicting field") ||
+		strings.Contains(msg, "does not match OneOfSchema discriminator type"):
+		return "oneof_inline", frame
+	}
+	if modelCause != "" && modelCause != "ok" && modelCause != "reject" {
+		return modelCause, frame
+	}
+	return "unpredicted", frame
+}
 
 // doC10 hands the description to the entry points and exercises whatever comes back.
 func doC10(c *Case, t *Tree, r *Result, replay any) {
 	mut := mutationClass(c)
-	kindFor := func(msg string) string {
-		if c.Cause != "" && c.Cause != "ok" && c.Cause != "reject" {
-			return c.Cause
-		}
-		if unlinkedMsg(msg) {
-			return "unlinked_ref"
-		}
-		return "unpredicted"
-	}
 	direct := t.toGo()
 	wire, werr := viaCBOR(direct)
 	forms := []struct {
@@ -585,7 +625,8 @@ func doC10(c *Case, t *Tree, r *Result, replay any) {
 				if fc.Acc == "panic" {
 					stage = "accept"
 				}
-				r.violate(stage, kindFor(pi.Msg), mut, "any", pi.Frame,
+				kind, fr := classify(pi.Msg, pi.Frame, c.Cause)
+				r.violate(stage, kind, mut, "any", fr,
 					fmt.Sprintf("%s panics at load (%s): %s\ndescription: %s", ep, via, pi.Msg, t.canon()))
 				obs = append(obs, via+":panic")
 			case err != nil:
@@ -595,11 +636,12 @@ func doC10(c *Case, t *Tree, r *Result, replay any) {
 				r.Evals += e.ops
 				n := 0
 				for _, p := range e.panics {
-					if foreignMsg(p.Msg) {
-						continue
+					if foreignMsg(p.Msg) && c.Target != "schema" {
+						continue // a stand-alone scope: the embedding side applies foreign namespaces
 					}
 					n++
-					r.violate("first_use", kindFor(p.Msg), mut, "any", p.Frame,
+					kind, fr := classify(p.Msg, p.Frame, c.Cause)
+					r.violate("first_use", kind, mut, "any", fr,
 						fmt.Sprintf("%s returned a schema (%s); %s(%s) on %s panics: %s\ndescription: %s",
 							ep, via, p.Op, p.Class, p.Node, p.Msg, t.canon()))
 				}
@@ -982,7 +1024,14 @@ func compareBehaviour(r *Result, rep func(stage, kind, frame, detail string), na
 	structMapped := root.Layout != "" && root.Layout != "map"
 	inputs := g.objectInputs(root, 0)
 	pk := rootKind(ast)
+	if reachableHazard(orig) {
+		return false // inputs could exhaust the stack on the original itself (C04's business)
+	}
+	hazard := false
 	for _, in := range inputs {
+		if hazard && !isMapValue(in) {
+			continue
+		}
 		var v1, v2 any
 		var e1, e2 error
 		p1 := sup.Guard(func() { v1, e1 = orig.Unserialize(cloneVal(in)) })
